@@ -22,6 +22,7 @@ import gen
 import mockca
 import vlib
 from ext import accountmulti
+from ext import contactsfp
 
 FINISH = dict(
     level="proof",
@@ -859,9 +860,19 @@ class Run:
                 "eab": ("externalAccountBinding" in payload) if kind == "newAccount" else None}
 
     # -- steps
-    def run_daemon(self, until, tmo):
+    def run_daemon(self, until, tmo, min_idle=0):
         d = flow.Daemon(self.cfg_path)
-        flow.wait_for(lambda: until(d) or not d.alive(), tmo)
+        # `tmo` is the longest time WITHOUT any sign of life (a request at a CA, a hook record, a log line);
+        # generating an RSA-4096 key on a busy machine shows none for a while: never less than a minute
+        def life():
+            n = sum(len(c.log) for c in self.cas.values())
+            for p in (self.log, d.stderr_path):
+                try:
+                    n += os.path.getsize(p)
+                except OSError:
+                    pass
+            return n
+        flow.wait_progress(lambda: until(d) or not d.alive(), life, idle=max(tmo, min_idle), cap=10 * max(tmo, min_idle))
         time.sleep(0.05)
         rc = d.stop()
         return rc, d.stderr()
@@ -881,7 +892,7 @@ class Run:
         marks = {e: len(c.log) for e, c in self.cas.items()}
         tables = {e: json.dumps(c.accounts, sort_keys=True, default=str) for e, c in self.cas.items()}
         n0 = len(flow.post_ops(self.log))
-        rc, err = self.run_daemon(lambda d: len(flow.post_ops(self.log)) > n0, self.tmo)
+        rc, err = self.run_daemon(lambda d: len(flow.post_ops(self.log)) > n0, self.tmo, min_idle=60)
         fired = [e.get("rule") for e in ca.log[marks[ep]:] if e.get("rule")]
         ca.rules[:] = []
         post, raw = self.fetch()
@@ -1224,6 +1235,8 @@ def run(ctx):
     os.makedirs(root)
     quick = ctx.quick()
     try:
+        # ---- the contacts fingerprint (Model/ContactsFp.lean, Props/C11Fp.lean): pairs of contact lists
+        contactsfp.extend(ctx, os.path.join(root, "FP"))
         # ---- part A
         n = 150 if quick else 2500
         shapes = [dict(c, dir=os.path.join(root, "corpus%d" % i)) for i, c in enumerate(vlib.corpus("C11"))
@@ -1325,6 +1338,8 @@ def replay(ctx):
             run_histories(ctx, os.path.join(root, "B"), [obj["history"]])
         elif part == "M":
             accountmulti.extend(ctx, None, os.path.join(root, "M"), hists=[obj["history"]])
+        elif part == "FP":
+            contactsfp.replay(ctx, obj)
         else:
             print("nothing to replay in this file (kind=%s)" % r.get("kind"))
     finally:
